@@ -276,6 +276,19 @@ def run(ctx):
                 'rng', None, 2, 1, 2, paths, (False,) * 4)]), R(1, 1)))
             yield f'one cell reached along {paths} paths via a range', \
                 cells, top2
+        for depth in (6, 12, 22):
+            # every cell refers to the next one TWICE and hands a blank on
+            cells = {}
+            for k in range(1, depth + 1):
+                nxt = R(1, k + 1)
+                cells[(S, 1, k)] = ('f', ('call', 'IF', [
+                    ('call', 'ISBLANK', [nxt]), nxt, ('lit', 0, '0')]))
+            yield f'blank-passing chain of depth {depth} (2 references per ' \
+                f'level)', cells, (S, 1, 1)
+            cells = dict(cells)
+            cells[(S, 1, depth + 1)] = 7
+            yield f'value-passing chain of depth {depth} (2 references per ' \
+                f'level)', cells, (S, 1, 1)
         for depth in (10, 25, 50, 75, 100):
             cells = {(S, 1, depth + 1): 1}
             for k in range(1, depth + 1):
